@@ -146,6 +146,9 @@ class Session:
         self.drv = drv
         self.world = world
         self.R = Realised(world)
+        self._validators = any(f.get("validator") for c in world["classes"] for f in c["fields"])
+        import collections
+        self.stats = collections.Counter()
         self.convs = {}
         r = drv.ask("WORLD " + terms.world_sx(world))
         if r != "ok":
@@ -194,7 +197,16 @@ class Session:
         return self.drv.ask("UN %s %s %s" % (terms.cfg_sx(cfg), terms.ty_sx(ty), terms.obj_sx(x_abs)))
 
     def model_st(self, cfg, ty, payload_abs):
-        return self.drv.ask("ST %s %s %s" % (terms.cfg_sx(cfg), terms.ty_sx(ty), terms.obj_sx(payload_abs)))
+        r = self.drv.ask("ST %s %s %s" % (terms.cfg_sx(cfg), terms.ty_sx(ty), terms.obj_sx(payload_abs)))
+        if self._validators and r.startswith("(ok "):
+            # class construction is modelled, not verified: an instance whose attribute holds a value its validator /
+            # post-init check rejects cannot be built -- `__init__` raises, so does the structuring call (both modes)
+            from . import gen
+            if not gen.validators_ok(self.world, reply_obj(r)):
+                self.stats["model:rejected-by-validator"] += 1
+                return "(err (leaf))" if cfg["detailed"] else "(err)"
+            self.stats["model:accepted-through-validators"] += 1
+        return r
 
     def model_conf(self, ty, x_abs):
         return self.drv.ask("CONF %s %s" % (terms.ty_sx(ty), terms.obj_sx(x_abs))) == "1"
